@@ -849,19 +849,15 @@ impl World for Programs {
         if self.id == "C38" {
             return vec!["analysis.accepted", "analysis.compared_with_execution", "analysis.withdraw_checked", "analysis.bounded_deposit_checked", "analysis.unbounded_deposit", "static.accepted", "fault.inject_costing_error_fired"];
         }
-        vec![
-            "program.success_predicted_and_observed",
-            "program.failure_predicted_and_observed",
-            "program.no_verdict_unknown_semantics",
-            "probe.withdraw_blocked_by_live_proof",
-            "probe.overlapping_proofs",
-            "probe.take_exactly_worktop_balance",
-            "probe.followup_full_withdraw",
-            "static.rejected",
-            "static.accepted",
-            "static.lifecycle_invalid_generated",
-            "fault.inject_costing_error_fired",
-        ]
+        // (verdict probes belong to C09 / C10, the follow-up withdrawal to C10 only)
+        let mut v = vec!["probe.withdraw_blocked_by_live_proof", "probe.overlapping_proofs", "probe.take_exactly_worktop_balance", "static.rejected", "static.accepted", "static.lifecycle_invalid_generated", "fault.inject_costing_error_fired"];
+        if self.id != "C36" {
+            v.extend(["program.success_predicted_and_observed", "program.failure_predicted_and_observed", "program.no_verdict_unknown_semantics"]);
+        }
+        if self.id == "C10" {
+            v.push("probe.followup_full_withdraw");
+        }
+        v
     }
     fn budget(&self, tier: Tier) -> (u64, u64) {
         match tier {
